@@ -293,6 +293,10 @@ def features(case):
     for fn in used_functions(case):
         f.add(fn)
     txt = json.dumps(case["phases"])
+    for b in LINALG:
+        if b in txt:
+            f.add(b.replace("<builtin>", ""))
+            f.add("linalg")
     for b in ("norm_2", "isnan", "elementwise_abs", "len"):
         if "<builtin>%s" % b in txt:
             f.add(b)
@@ -339,7 +343,9 @@ def canon(x):
         return int(x) if x == int(x) else rt.fmt_float(float(x))
     if isinstance(x, np.ndarray) and x.ndim == 1:
         out = [canon(z) for z in x]
-        return out if all(isinstance(z, int) and not isinstance(z, bool) for z in out) else "array:%r" % (out,)
+        ok = all((isinstance(z, int) and not isinstance(z, bool)) or (isinstance(z, str) and z.startswith("f:"))
+                 for z in out)
+        return out if ok else "array:%r" % (out,)
     if isinstance(x, np.ndarray) and x.ndim == 0:
         return canon(x.item())
     return "other:%s" % type(x).__name__
@@ -408,7 +414,8 @@ def run_fortran(case, code):
     if "error" in gen:
         return {"gen_error": gen["error"], "message": gen["message"]}
     drv = rt.make_driver(MODULE, gen, case["init"], case["nsteps"], dict(rt.UTYPE_SIZES))
-    res = rt.build_and_run([(MODULE + ".f90", gen["text"]), ("drv.f90", drv)], options=FFLAGS, timeout=60)
+    libs = ("-llapack", "-lblas") if any(b in json.dumps(case["phases"]) for b in ("linear_solve", "svd")) else ()
+    res = rt.build_and_run([(MODULE + ".f90", gen["text"]), ("drv.f90", drv)], options=FFLAGS, timeout=60, libs=libs)
     ne_in_code = any("!=" in ln for ln in gen["text"].splitlines() if not ln.lstrip().startswith("! "))
     out = {"symbols": [list(s) for s in gen["symbols"]], "phases": gen["phases"], "time_ids": gen["time_ids"],
            "ne_in_code": ne_in_code,
@@ -457,7 +464,7 @@ def oracle(case, res):
     for k, (fs, is_) in enumerate(zip(f["steps"], i["steps"])):
         for n in names:
             fv, iv = fs.get(n), is_.get(n)
-            if fv != iv or type(fv) is not type(iv):
+            if not same_value(fv, iv):
                 return {"kind": "state_differs", "call": k + 1, "variable": n, "fortran": fv, "interpreter": iv}
         if fs.get("next_phase") != is_["next_phase"]:
             return {"kind": "state_differs", "call": k + 1, "variable": "dagrt_next_phase",
@@ -491,6 +498,27 @@ def uses_default(case):
     for ph in case["phases"]:
         walk(ph["prog"])
     return bool(found)
+
+
+def _as_number(v):
+    if isinstance(v, bool):
+        return None
+    if isinstance(v, int):
+        return float(v)
+    if isinstance(v, str) and v.startswith("f:"):
+        return float(v[2:])
+    return None
+
+
+def same_value(a, b):
+    """integers, booleans, None: equal and of the same type; as soon as a non-integral number is involved:
+    equal to 10 significant digits (absolute 1e-9 near zero); lists element-wise"""
+    if isinstance(a, list) and isinstance(b, list):
+        return len(a) == len(b) and all(same_value(x, y) for x, y in zip(a, b))
+    x, y = _as_number(a), _as_number(b)
+    if x is not None and y is not None and (isinstance(a, str) or isinstance(b, str)):
+        return abs(x - y) <= 1e-9 * max(1.0, abs(x), abs(y))
+    return a == b and type(a) is type(b)
 
 
 def classify(case, o):
@@ -561,7 +589,7 @@ def end_to_coq(end):
 def modelled(case):
     """inside the expression language of coq/model/Lang.v"""
     feats = features(case)
-    return "pow" not in feats and "utype_arith" not in feats and "norm_2" not in feats
+    return "pow" not in feats and "utype_arith" not in feats and "norm_2" not in feats and "linalg" not in feats
 
 
 def case_term(case, res):
@@ -943,6 +971,73 @@ class PGen:
         return {"phases": phases, "initial": self.names[0], "init": init, "nsteps": r.choice([2, 3, 3, 4])}
 
 
+LINALG = ("<builtin>matmul", "<builtin>transpose", "<builtin>linear_solve", "<builtin>svd")
+
+
+def linalg_case(rng):
+    """array built-ins on NON-SQUARE shapes, flat column-major arrays filled by loops; every call form:
+    positional, trailing keywords, all keywords; column counts as constants, persistent scalars or sums"""
+    V = lambda x: ["var", x]
+    I = lambda z: ["int", z]
+    S = lambda *a: ["nary", "sum", list(a)]
+    P = lambda *a: ["nary", "prod", list(a)]
+    A = lambda x, rhs, loops=(), sub=None: ["stmt", ["assign", x, sub, rhs, [list(l) for l in loops]]]
+    shapes = [(m, k, n) for m in (1, 2, 3) for k in (1, 2, 3) for n in (1, 2, 3) if not (m == k == n)]
+    m, k, n = rng.choice(shapes)
+    prog = [A("<p>x", S(V("<p>x"), I(1)))]
+    init = {"<t>": 0, "<dt>": 1, "<p>x": rng.randint(-1, 2), "<p>k": k, "<p>l": 0}
+    # touch <p>k so that it is declared (and stays k)
+    prog.append(A("<p>k", ["nary", "max", [V("<p>k"), I(k)]]))
+
+    def fill(name, size, c1, c2):
+        prog.append(["stmt", ["call", [name], "<builtin>array", [I(size)], []]])
+        prog.append(A(name, S(P(I(c1), V("i"), V("i")), P(I(c2), V("i")), V("<p>x")), [("i", I(0), I(size))], sub=V("i")))
+
+    def cols(c, persistent_ok):
+        d = rng.random()
+        if d < 0.4:
+            return I(c)
+        if d < 0.6 and persistent_ok:
+            return V("<p>k")
+        return S(I(c - 1), I(1)) if c > 1 else I(1)
+
+    def call(xs, f, pos, kwnames):
+        """pos: all arguments in order; the last len(kwnames) of them passed by keyword"""
+        npos = len(pos) - len(kwnames)
+        return ["stmt", ["call", xs, f, pos[:npos], [[nm, e] for nm, e in zip(kwnames, pos[npos:])]]]
+
+    fill("a", m * k, rng.choice([1, -1, 2]), rng.choice([-3, 2, 1]))
+    fill("b", k * n, rng.choice([1, 2]), rng.choice([-2, 1, 3]))
+    forms = [[], ["b_cols"], ["a_cols", "b_cols"], ["a", "b", "a_cols", "b_cols"]]
+    prog.append(call(["c"], "<builtin>matmul", [V("a"), V("b"), cols(k, True), cols(n, False)], rng.choice(forms)))
+    prog.append(A("<p>c", V("c")))
+    prog.append(call(["d"], "<builtin>transpose", [V("a"), cols(k, True)], rng.choice([[], ["a_cols"], ["a", "a_cols"]])))
+    prog.append(A("<p>d", V("d")))
+    # (n x k) . (k x m): the transposes, so the result is c transposed
+    prog.append(call(["e"], "<builtin>transpose", [V("b"), I(n)], []))
+    prog.append(call(["g"], "<builtin>matmul", [V("e"), V("d"), I(k), I(m)], rng.choice(forms)))
+    prog.append(A("<p>g", V("g")))
+    prog.append(["stmt", ["call", ["<p>l"], "<builtin>len", [V("g")], []]])
+    if rng.random() < 0.7:
+        # A (q x q), diagonally dominant, with r right-hand sides
+        q, r_ = rng.choice([(2, 1), (2, 3), (3, 1), (3, 2)])
+        prog.append(["stmt", ["call", ["h"], "<builtin>array", [I(q * q)], []]])
+        prog.append(A("h", S(V("i"), I(-2)), [("i", I(0), I(q * q))], sub=V("i")))
+        prog.append(A("h", S(I(7), V("j"), V("<p>x")), [("j", I(0), I(q))], sub=S(P(V("j"), I(q)), V("j"))))
+        fill("r", q * r_, 1, -2)
+        prog.append(call(["s"], "<builtin>linear_solve", [V("h"), V("r"), I(q), I(r_)],
+                         rng.choice([[], ["a_cols", "b_cols"], ["b", "a_cols", "b_cols"]])))
+        prog.append(A("<p>s", V("s")))
+        # h . s must give r back
+        prog.append(call(["u"], "<builtin>matmul", [V("h"), V("s"), I(q), I(r_)], []))
+        prog.append(A("<p>u", V("u")))
+    if rng.random() < 0.5:
+        prog.append(call(["uu", "sg", "vt"], "<builtin>svd", [V("a"), I(k)], rng.choice([[], ["a_cols"]])))
+        prog.append(A("<p>sg", V("sg")))
+    return {"phases": [{"name": "pa", "next": "pa", "prog": prog}], "initial": "pa", "init": init,
+            "nsteps": rng.choice([2, 3])}
+
+
 def gen_cases(tier, seed):
     rng = random.Random(seed * 104729 + 3)
     nrand = 24 if tier == "quick" else 600
@@ -956,6 +1051,9 @@ def gen_cases(tier, seed):
         if rng.random() < 0.3:
             allow.add("raise")
         out.append(PGen(rng, allow).case())
+    rng2 = random.Random(seed * 7919 + 11)
+    for n in range(8 if tier == "quick" else 120):
+        out.append(linalg_case(rng2))
     return out
 
 
